@@ -288,3 +288,8 @@ class HB_on_trial_complete:
 
     def ensures(old, s, result):
         return {"no-pending-entries-left": forall(range(1, 28), lambda q: s.G.pend[q] == 0), "marked-stopped": s.self._active_trials["0"].trial_decision == "STOP"}
+
+
+from pyvc.native import native_monitor  # noqa: E402
+
+EXTRA_CHECKS = [native_monitor("C14", "contracts.c04_native", "monitor_hyperband", "hyperband", "631 (thorough 3598) scenarios: the real HyperbandScheduler (promotion, pasha, rush, cost-aware, stopping; 1..3 brackets; all data policies; random and GP searcher) under a Tuner-like event loop with failures and self-completion, compared with an independent ledger (numpy quantiles, three-valued eligibility with tie latitude, total cost, PASHA min/max twin)")]
